@@ -266,6 +266,67 @@ def rule_gray_ramp(ctx: Ctx) -> RuleResult:
     return rr
 
 
+def rule_per_side_decode(ctx: Ctx) -> RuleResult:
+    """An AttrSpec can mix colour kinds: a basic foreground with a true-colour background has depth 2**24 as a whole.
+    get_rgb_values() decodes the two colour numbers separately, so the choice of the 24-bit decode for a side must
+    rest on that side's own flag (foreground_true / background_true), not on the depth of the whole specification."""
+    from ..rules.exc import ExcEngine
+    from ..rules.util import cfg_of
+
+    p = ctx.p
+    rr = RuleResult("GUARD", "C18.10", "get_rgb_values picks the 24-bit decode of a side under that side's own *_true flag", floor=2)
+    fi = p.func(f"{COMMON}.AttrSpec.get_rgb_values")
+    cfg = cfg_of(fi)
+    n = 0
+    for node in cfg.nodes:
+        a = node.ast
+        if a is None or node.kind in ("for", "with", "handler", "test"):
+            continue
+        for js in ast.walk(a):
+            if isinstance(js, ast.JoinedStr):
+                for v in js.values:
+                    if isinstance(v, ast.FormattedValue) and isinstance(v.value, ast.Attribute) and v.value.attr in ("foreground_number", "background_number") and v.format_spec is not None and "06x" in ast.unparse(v.format_spec):
+                        side = v.value.attr.split("_")[0]
+                        n += 1
+                        guards = [t for t in cfg.nodes if t.kind == "test" and node not in ExcEngine._reach_without_edge(cfg, t, "T")]
+                        rr.inst(f"{side} 24-bit decode", True, {"side": side, "under": [norm(t.ast, 50) for t in guards]})
+                        if not any(f"{side}_true" in ast.unparse(t.ast) for t in guards):
+                            rr.add(finding("GUARD", fi, node.stmt, f"the {side} number is decoded as 24-bit RGB under {[norm(t.ast, 40) for t in guards]}, not under self.{side}_true: in a specification that mixes a basic {side} with a true-colour colour on the other side the basic index (e.g. 11 for yellow) is reported as the RGB value #00000b", construct=f"{side} 24-bit decode not under {side}_true"))
+    if n < 2:
+        raise AnalysisError("get_rgb_values: the two 24-bit decodes (f'{...:06x}') were not found")
+    return rr
+
+
+def rule_strict_numbers(ctx: Ctx) -> RuleResult:
+    """Python's int(text, base) is far more liberal than a colour description may be: it accepts '+5', ' 5', '1_0',
+    '0x12' (base 16) and digits of other scripts.  The colour parsers must therefore not call int() on pieces of
+    the description themselves; numbers go through the one strict reader (_int_digits), which admits ASCII digits of
+    the base only.  Likewise the 88-colour parser folds a seven-character description to four characters only when
+    it is '#rrggbb'."""
+    p = ctx.p
+    rr = RuleResult("TAINT", "C18.11", "the colour parsers read numbers only through the strict digit reader, never with a bare int()", floor=8)
+    strict = p.func(f"{COMMON}._int_digits")
+    # the strict reader really is strict: it raises before int() unless every character is an ASCII digit of the base
+    ok = any(isinstance(n, ast.Raise) for n in strict.own_nodes()) and any(isinstance(n, ast.Compare) and isinstance(n.ops[0], ast.NotIn) for n in strict.own_nodes())
+    rr.inst("_int_digits", True)
+    if not ok:
+        rr.add(finding("TAINT", strict, strict.node, "_int_digits no longer checks the characters against the digit alphabet before calling int()", construct="strict reader not strict"))
+    for q in ("_parse_color_true", "_parse_color_256", "_parse_color_88", "_true_to_256"):
+        fi = p.func(f"{COMMON}.{q}")
+        for c in fi.own_nodes():
+            if isinstance(c, ast.Call) and isinstance(c.func, ast.Name) and c.func.id in ("int", "_int_digits") and c.args:
+                rr.inst(f"{q}:{norm(c, 40)}", True, {"parser": q, "read": norm(c, 50)} if len(rr.samples) < 6 else None)
+                if c.func.id == "int":
+                    rr.add(finding("TAINT", fi, c, f"`{norm(c, 50)}` parses part of the description with int(), which also accepts signs, blanks, '_' separators, a '0x' prefix and non-ASCII digits: malformed descriptions such as 'h+5', '#1_1' or '#-00001' are accepted as colours instead of raising AttrSpecError", construct=f"bare int() on description text: {norm(c, 50)}"))
+    p88 = p.func(f"{COMMON}._parse_color_88")
+    folds = [n for n in p88.own_nodes() if isinstance(n, ast.If) and any(isinstance(c, ast.Compare) and ast.unparse(c) == f"len({p88.params[0]}) == 7" for c in ast.walk(n.test))]
+    rr.inst("88: seven-character fold", True, {"tests": [norm(n.test, 60) for n in folds]})
+    for n in folds:
+        if "startswith" not in ast.unparse(n.test):
+            rr.add(finding("TAINT", p88, n, f"`if {norm(n.test, 50)}` folds any seven-character description to four characters without checking that it is '#rrggbb': 'g#12345' is accepted as 'g#15', 'h000700' as 'h0'", construct="seven-character fold without '#' test"))
+    return rr
+
+
 def run(ctx: Ctx):
     p = ctx.p
     c = p.cls(f"{COMMON}.AttrSpec")
@@ -295,6 +356,8 @@ def run(ctx: Ctx):
         rule_depth_masks(ctx),
         rule_high_bounds(ctx),
         rule_gray_ramp(ctx),
+        rule_per_side_decode(ctx),
+        rule_strict_numbers(ctx),
     ]
     return out
 
@@ -303,6 +366,9 @@ from ..mutants import Mut  # noqa: E402
 
 _C = "urwid/display/common.py"
 MUTANTS = [
+    Mut("high-colour-number-by-int", "urwid/display/common.py", "_parse_color_256", "            num = _int_digits(desc[1:], 10)", "            num = int(desc[1:], 10)", "TAINT|display.common._parse_color_256"),
+    Mut("fold-any-seven-characters", "urwid/display/common.py", "_parse_color_88", "    if len(desc) == 7 and desc.startswith(\"#\"):", "    if len(desc) == 7:", "TAINT|display.common._parse_color_88"),
+    Mut("rgb-decode-by-whole-spec-depth", "urwid/display/common.py", "AttrSpec.get_rgb_values", "        elif self.foreground_true:", "        elif self.colors == 2**24:", "GUARD|display.common.AttrSpec.get_rgb_values"),
     Mut("gray-ramp-entry-typo", "urwid/display/common.py", None, "    0x8A,\n", "    0x84,\n", "TAB|display.common._GRAY_STEPS_256"),
     Mut("colors-true-by-mode-flag", "urwid/display/common.py", "AttrSpec.colors", "if self.__value & (_BG_TRUE_COLOR | _FG_TRUE_COLOR):", "if self.__value & _HIGH_TRUE_COLOR:", "TAB|display.common.AttrSpec.colors"),
     Mut("twin-colors-true-pair-reordered", "urwid/display/common.py", "AttrSpec.colors", "if self.__value & (_BG_TRUE_COLOR | _FG_TRUE_COLOR):", "if self.__value & (_FG_TRUE_COLOR | _BG_TRUE_COLOR):", twin=True),
@@ -310,7 +376,7 @@ MUTANTS = [
     Mut("twin-h-bound-derived", "urwid/display/common.py", "_parse_color_256", "if num < 0 or num > 255:", "if num < 0 or num >= _GRAY_START_256 + _GRAY_SIZE_256:", twin=True),
     Mut("desc-88-rejects-zero", _C, "_color_desc_88", "if not 0 <= num < 88:", "if not 0 < num < 88:", "SIB|"),
     Mut("desc-256-cube-boundary", _C, "_color_desc_256", "if num < _GRAY_START_256:", "if num <= _GRAY_START_256:", "SIB|"),
-    Mut("true-to-256-int-unguarded", _C, "_true_to_256", "    try:\n        c256 = _parse_color_256(\"#\" + \"\".join(format(int(x, 16) // 16, \"x\") for x in (desc[1:3], desc[3:5], desc[5:7])))\n    except ValueError:\n        return None", "    c256 = _parse_color_256(\"#\" + \"\".join(format(int(x, 16) // 16, \"x\") for x in (desc[1:3], desc[3:5], desc[5:7])))", "EXC|"),
+    Mut("true-to-256-int-unguarded", _C, "_true_to_256", "    try:\n        c256 = _parse_color_256(\"#\" + \"\".join(format(_int_digits(x, 16) // 16, \"x\") for x in (desc[1:3], desc[3:5], desc[5:7])))\n    except ValueError:\n        return None", "    c256 = _parse_color_256(\"#\" + \"\".join(format(_int_digits(x, 16) // 16, \"x\") for x in (desc[1:3], desc[3:5], desc[5:7])))", "EXC|"),
     Mut("hash-ignores-value", _C, "AttrSpec.__hash__", "return hash((self.__class__, self.__value))", "return hash(self.__class__)", "SIB|"),
     Mut("eq-ignores-truecolor-marker", _C, "AttrSpec.__eq__", "return isinstance(other, AttrSpec) and self.__value == other._value", "return isinstance(other, AttrSpec) and (self.__value ^ other._value) & ~_HIGH_TRUE_COLOR == 0", "SIB|"),
     Mut("true-to-256-none-unchecked", _C, "_true_to_256", "    if c256 is None:\n        return None\n", "", "NULLFLOW|display.common._true_to_256"),
